@@ -18,3 +18,16 @@ EXPLANATION = 'bounded symbolic execution of the real encoder twice (strict vali
 OUTSIDE = ['instruction-name round trip (inst_id_to_string / string_to_inst_id): the binary search over the name tables did not reach a verdict within budget (see DESIGN.md C13)',
            'near-miss mutations of forms (covered in part by C14 arbitrary-operand harnesses)', 'AArch64 (no operand validator)']
 ASSUMPTIONS = ['forms accepted by the pinned release are vendored in checks/C01/forms_status.json']
+
+# ---- units 'names' (x86) and 'names_a64': instruction-name round trip (h_names.cpp) -------------------------------------------------
+# Two units from one source so that, per unit, every library function has one call chain and is inlined the same way whichever
+# harnesses are selected (loop names in the unwindsets below depend on it).
+import re as _re
+_NAMES_CORE = ['asmjit/core/instdb.cpp', 'asmjit/core/string.cpp']
+UNITS.append(Unit('names', harness=['h_names.cpp'], repo_units=_NAMES_CORE + ['asmjit/x86/x86instdb.cpp', 'asmjit/x86/x86instapi.cpp', 'asmjit/arm/a64instdb.cpp'], wrap=['malloc', 'realloc'], extra_c=['names_mem.c']))
+UNITS.append(Unit('names_a64', harness=['h_names.cpp'], repo_units=_NAMES_CORE + ['asmjit/arm/a64instdb.cpp', 'asmjit/arm/a64instapi.cpp'], wrap=['malloc', 'realloc'], extra_c=['names_mem.c']))
+_names_src = open(os.path.join(os.path.dirname(os.path.abspath(__file__)), 'h_names.cpp')).read()
+_names_fns = _re.findall(r'^HARNESS (h_names_\w+)\(\)', _names_src, _re.M)
+_names_fns += ['h_names_%s_%s%s' % (m[0], m[1], m[2]) for m in _re.findall(r'NAMES\((x86|a64), \w+, (\w), +\d+, (\w*), \d, \d\)', _names_src)]
+for _fn in _names_fns:
+    HARNESSES.append(Harness('names_a64' if '_a64_' in _fn else 'names', _fn, unwind=21, mem_gb=4, timeout=900, bounds='TODO'))
